@@ -139,7 +139,17 @@ fn rounds_for<const Z: usize, const G: usize, const E: usize, const R: usize, co
             }
         };
         let n = if geo { rng.random_range(20..60) } else { n };
-        let vals: Vec<(u64, u64)> = (0..n).map(|_| (draw(rng), if rng.random_bool(0.3) { rng.random_range(1..if big { 4 } else { 1000 }) } else { 1 })).collect();
+        let mut vals: Vec<(u64, u64)> = (0..n).map(|_| (draw(rng), if rng.random_bool(0.3) { rng.random_range(1..if big { 4 } else { 1000 }) } else { 1 })).collect();
+        // one round in eight: a single value just below 2^64 (every tracked code can still represent it and
+        // the unary total n + 1 still fits), alone or with two small values
+        if round % 8 == 5 {
+            let r = rng.random_range(0..600u64);
+            vals = vec![(u64::MAX - 1 - r, 1)];
+            if r >= 30 {
+                vals.push((3, 1));
+                vals.push((1, 1));
+            }
+        }
         // (a) one by one / with multiplicities into one object
         let whole_id = tr.new_id();
         new_ev::<Z, G, E, R, P>(tr, whole_id);
